@@ -46,3 +46,30 @@ Proof. vm_compute. reflexivity. Qed.
    exit and every point where a raise may cut it no OTHER persistent name may denote a caller-owned buffer *)
 Lemma gen_persist_ok : forallb (persist_ok caller_names) write_bodies = true.
 Proof. vm_compute. reflexivity. Qed.
+
+(* calls of registered methods from other bodies (optimizers calling inner methods, the decorator calling the
+   decorated body) are translated as "writes none of its arguments".  That is not an assumption: every registered
+   body is in the checked table with ALL of its parameters treated as caller-owned on entry, so by gen_writes_ok
+   it writes through none of them whatever the caller passes. *)
+Definition reg_entry_total (e : string * list name) : bool :=
+  existsb (fun b => String.eqb (b_name b) (fst e) && subset (snd e) (b_tainted b)) write_bodies.
+Lemma gen_registered_entry_total :
+  forallb reg_entry_total registered_params = true /\ Nat.eqb (List.length registered_params) n_registered = true.
+Proof. split; vm_compute; reflexivity. Qed.
+
+Lemma registered_call_safe : forall e, In e registered_params ->
+  exists b, In b write_bodies /\ b_name b = fst e
+    /\ (forall p, In p (snd e) -> mem p (b_tainted b) = true)
+    /\ forall (V : Type) (own : nat -> owner) st t o,
+         covers own st (b_tainted b) -> exec V own (b_code b) st t o ->
+         forall (h : heap V) k u, own u = User -> run V h (firstn k t) u = h u.
+Proof.
+  intros e He. destruct gen_registered_entry_total as [Hall _].
+  rewrite forallb_forall in Hall. specialize (Hall e He). unfold reg_entry_total in Hall.
+  apply existsb_exists in Hall. destruct Hall as [b [Hb Hc]].
+  apply andb_true_iff in Hc. destruct Hc as [Hn Hs].
+  exists b. split; [exact Hb|]. split; [apply String.eqb_eq; exact Hn|]. split.
+  - intros p Hp. eapply subset_mem; [exact Hs|]. apply mem_In. exact Hp.
+  - intros V own. apply (writes_ok_sound V own bodies gen_writes_ok b).
+    unfold bodies. apply in_or_app. left. exact Hb.
+Qed.
